@@ -172,7 +172,10 @@ def apply_edit(seed: str, e) -> str:
 TOKENS_CORE = [" ", "\n", "#", "-", "o", "x", "P1", "foo", "::", "*", "[[", "]]", "[", "]",
                "240101", "240101#0A", "2024-01-01", "'", "+", H1R]
 TOKENS_Q = [" ", "\n", "#", "-", "o", "P1", "foo", "::", "*", "[[", "240101#0A", H2R]
-DIGIT_WORDS = ["1234", "123456", "12345678", "123456789", "1234567890", "241945#AB", "2024-19-39", "991332"]
+DIGIT_WORDS = ["1234", "123456", "12345678", "123456789", "1234567890", "241945#AB", "2024-19-39", "991332",
+               # month and day in range, but not on the calendar
+               "240230", "230229", "240431", "240931", "240230#AB", "230229#0A", "2023-02-29", "2024-04-31",
+               "2024-02-30", "240229", "2024-02-29", "240000", "240100", "2024-00-10"]
 
 
 def _text_of(case):
